@@ -444,6 +444,27 @@ func bigDescs() []*Desc {
 	}
 	out = append(out, &Desc{Name: "a.b", Mems: []Mem{{Kind: 't', Name: "Wide", T: w}, {Kind: 't', Name: "LongEnum", T: enum(names...)}, {Kind: 't', Name: "One", T: enum("single")},
 		{Kind: 'm', Name: "M", In: w, Out: strct(Fld{"e", enum(names...)}, Fld{"o", enum("single")})}, {Kind: 'e', Name: "E", T: w}}})
+	// user types whose names are builtin type names or keywords with an upper-case initial, referenced everywhere
+	{
+		var mems []Mem
+		fs := strct()
+		for _, n := range []string{"String", "Int", "Bool", "Float", "Object", "STRING", "Integer", "Type", "Method", "Error", "Interface", "Stringx"} {
+			mems = append(mems, Mem{Kind: 't', Name: n, T: strct(Fld{"v", base(kInt)})})
+			fs.Fields = append(fs.Fields, Fld{strings.ToLower(n) + "_f", alias(n)}, Fld{"m" + strings.ToLower(n), wrap(kMaybe, wrap(kArray, alias(n)))})
+		}
+		mems = append(mems, Mem{Kind: 'm', Name: "Use", In: fs, Out: fs}, Mem{Kind: 'e', Name: "Bad", T: fs})
+		out = append(out, &Desc{Name: "org.example.builtinlike", Mems: mems})
+	}
+	// very long lists
+	for _, n := range []int{63, 64, 65, 66, 129, 300} {
+		ws := strct()
+		var en []string
+		for i := 0; i < n; i++ {
+			ws.Fields = append(ws.Fields, Fld{fmt.Sprintf("f%d", i), base(kInt)})
+			en = append(en, fmt.Sprintf("e%d", i))
+		}
+		out = append(out, &Desc{Name: "org.example.lists", Mems: []Mem{{Kind: 't', Name: "S", T: ws}, {Kind: 't', Name: "En", T: enum(en...)}, {Kind: 'm', Name: "M", In: ws, Out: strct(Fld{"e", enum(en...)})}}})
+	}
 	// deep nesting
 	deep := base(kString)
 	for i := 0; i < 30; i++ {
